@@ -3,7 +3,6 @@ package main
 import (
 	"encoding/hex"
 	"fmt"
-	"go/types"
 	"hash/fnv"
 	"strconv"
 	"strings"
@@ -57,8 +56,6 @@ func (ex *Exec) lookupStub(fn *ssa.Function, name string) stubFn {
 	}
 	return nil
 }
-
-func nativeMethod(t types.Type, name string) (*FuncV, bool) { return nil, false }
 
 func (ex *Exec) argString(v Value) string {
 	s, ok := ex.concreteString(v.(*SliceV))
